@@ -275,6 +275,8 @@ func configs() []cfg {
 			cs = append(cs, cfg{Kind: k, Series: 2, Requests: 2, Failures: 2, Cancel: true})
 		}
 	}
+	// a stream of several datagrams: a write error in the middle, reconnect, and a second write error
+	cs = append(cs, cfg{Kind: "statsdaemon-udp", Series: 170, Requests: 1, Failures: 2})
 	for _, k := range []string{"cloudwatch", "stdout", "null"} {
 		cs = append(cs, cfg{Kind: k, Series: 2, Requests: 2, Failures: 1, Cancel: true})
 	}
